@@ -177,7 +177,8 @@ def run(ctx, out, tier):
                             names |= set(rows)
             calls = [callee_name(t).split("::")[-1] for rb in region for bi, t in rb.calls()]
             farthest = [c for c in calls if c in ("rev", "last", "max_by", "max_by_key", "min_by", "min_by_key", "nth", "skip")]
-            if names == {".git", ".hg"} and "ancestors" in calls and "is_dir" in calls and not farthest:
+            # nearest ancestor: `ancestors().find(..)`, or a loop that tests a directory and then moves to its parent()
+            if names == {".git", ".hg"} and ("ancestors" in calls or "parent" in calls) and "is_dir" in calls and not farthest:
                 k += 1
             else:
                 out.viol("C15.root", "C15.root|search", ctx.where(rr), "repository_root_path looks for %s via %s; expected the nearest ancestor containing a `.git` or `.hg` directory" % (sorted(names), sorted(set(calls))[:8]))
@@ -205,7 +206,7 @@ def run(ctx, out, tier):
                         k += 1
                     else:
                         out.viol("C15.root", "C15.root|walk-root", ctx.where(rb, t["span"]), "the directory walk does not start at the repository root")
-                sp = [(rb, t) for rb in region for bi, t in rb.calls() if callee_matches(t, r"std::path::Path::strip_prefix$")]
+                sp = [(rb, t) for rb in ctx.region(b) + list(region) for bi, t in rb.calls() if callee_matches(t, r"std::path::Path::strip_prefix$")]
                 if sp:
                     k += 1
                 else:
